@@ -343,6 +343,11 @@ impl<'a> Tr<'a> {
                 if let Ty::Adt(n) = &recv.ty {
                     let name = m.method.to_string();
                     let fs = self.find_fns(Some(n), &name);
+                    if self.inst_traits.contains_key(n) {
+                        // a value of an instantiated type parameter: resolved (by its trait bounds) in method_call only
+                        return Ok(None);
+                    }
+                    let fs: Vec<FnInfo> = if fs.len() > 1 && fs.iter().filter(|f| f.trait_name.is_none()).count() == 1 { fs.into_iter().filter(|f| f.trait_name.is_none()).collect() } else { fs };
                     if fs.len() == 1 {
                         self.check_not_shadowed(&fs[0], e)?;
                         return Ok(Some((fs[0].clone(), Some(recv))));
